@@ -169,11 +169,41 @@ def real_groups(case, mode, expect):
     defined = {l for _, _, labels, _ in gs for l in labels}
     undefined = any(int(v) != 0 and int(v) not in defined for v in list(pred) + list(ref))
 
-    def mk(itype, groups=None, thr=0.5):
-        return Panoptica_Evaluator(expected_input=getattr(InputType, itype), instance_approximator=ConnectedComponentsInstanceApproximator(), instance_matcher=NaiveThresholdMatching(),
+    def mk(itype, groups=None, thr=0.5, mthr=0.5):
+        return Panoptica_Evaluator(expected_input=getattr(InputType, itype), instance_approximator=ConnectedComponentsInstanceApproximator(), instance_matcher=NaiveThresholdMatching(matching_threshold=mthr),
                                    segmentation_class_groups=groups, instance_metrics=[Metric.DSC, Metric.IOU], global_metrics=[Metric.DSC],
                                    decision_metric=None if thr is None else Metric.IOU, decision_threshold=thr)
+
+    def compare(out, p0, r0, mthr=0.5):
+        """each group's result against evaluating the restricted arrays without groups"""
+        for name, kind, labels, single in gs:
+            rp = np.where(np.isin(p0, labels), 1 if kind == "merge" else p0, 0).astype(dt)
+            rr = np.where(np.isin(r0, labels), 1 if kind == "merge" else r0, 0).astype(dt)
+            try:
+                if single and it != "MATCHED_INSTANCE":
+                    want = mk("MATCHED_INSTANCE", None, 0.0, mthr).evaluate(rp.astype(np.uint32), rr.astype(np.uint32), verbose=False)["ungrouped"][0]
+                else:
+                    want = mk(it, None, 0.5, mthr).evaluate(rp, rr, verbose=False)["ungrouped"][0]
+            except Exception as e:
+                return "reference evaluation of the restricted arrays failed: %s" % e
+            got = out[name][0]
+            for k in ("tp", "fp", "fn", "num_ref_instances", "num_pred_instances", "sq", "global_bin_dsc"):
+                a, b = getattr(got, k), getattr(want, k)
+                same = (a == b) or (isinstance(a, float) and isinstance(b, float) and a != a and b != b)
+                if not same:
+                    return "group_sees_exactly_its_labels: group %r %s=%r, restricted arrays alone give %r" % (name, k, a, b)
+        return None
+
+    # the same observation point as in the symbolic run: the arguments each group's panoptic_evaluate call receives on the real package
+    import panoptica.panoptica_evaluator as RPE
+    seen = []
+    orig_pe = RPE.panoptic_evaluate
+
+    def spy(*a, **kw):
+        seen.append(kw.get("decision_threshold"))
+        return orig_pe(*a, **kw)
     bad = None
+    RPE.panoptic_evaluate = spy
     try:
         out = mk(it, _mkgroups_real(case["groupset"])).evaluate(pred, ref, verbose=False)
         raised = None
@@ -181,6 +211,8 @@ def real_groups(case, mode, expect):
         raised = e
     except Exception as e:
         return {"match": False, "violates": True, "reason": "completes: %s: %s" % (type(e).__name__, str(e)[:160]), "observed": None}
+    finally:
+        RPE.panoptic_evaluate = orig_pe
     if not (np.array_equal(pred, p0) and np.array_equal(ref, r0)):
         return {"match": True, "violates": True, "reason": "no_input_mutation: evaluate modified the caller's arrays: %s -> %s" % (p0.tolist(), pred.tolist()), "observed": None}
     if raised is not None:
@@ -189,26 +221,26 @@ def real_groups(case, mode, expect):
     elif undefined:
         bad = "undefined_label_is_rejected: labels %s / %s evaluated without error" % (p0.tolist(), r0.tolist())
     else:
-        for name, kind, labels, single in gs:
-            rp = np.where(np.isin(p0, labels), 1 if kind == "merge" else p0, 0).astype(dt)
-            rr = np.where(np.isin(r0, labels), 1 if kind == "merge" else r0, 0).astype(dt)
-            try:
-                if single and it != "MATCHED_INSTANCE":
-                    want = mk("MATCHED_INSTANCE", None, 0.0).evaluate(rp.astype(np.uint32), rr.astype(np.uint32), verbose=False)["ungrouped"][0]
-                else:
-                    want = mk(it).evaluate(rp, rr, verbose=False)["ungrouped"][0]
-            except Exception as e:
-                bad = "reference evaluation of the restricted arrays failed: %s" % e
-                break
-            got = out[name][0]
-            for k in ("tp", "fp", "fn", "num_ref_instances", "num_pred_instances", "sq", "global_bin_dsc"):
-                a, b = getattr(got, k), getattr(want, k)
-                same = (a == b) or (isinstance(a, float) and isinstance(b, float) and a != a and b != b)
-                if not same:
-                    bad = "group_sees_exactly_its_labels: group %r %s=%r, restricted arrays alone give %r" % (name, k, a, b)
+        bad = compare(out, p0, r0)
+        if bad is None and len(seen) == len(gs):
+            for (name, kind, labels, single), thr in zip(gs, seen):
+                want_thr = 0.0 if (single and it != "MATCHED_INSTANCE") else 0.5
+                if thr != want_thr:
+                    bad = "group_gets_the_configured_decision_threshold: group %r is evaluated with decision threshold %r, configured %r" % (name, thr, want_thr)
+                    # end-to-end consequence: an instance with IoU 1/3 (matcher threshold 1/4, decision threshold 1/2) in every multi-instance group
+                    dp, dr = [], []
+                    for _, k2, labs, sg in gs:
+                        l = labs[0]
+                        dp += [l, l, l, 0] if not sg else [l, 0]
+                        dr += [l, 0, 0, 0] if not sg else [l, 0]
+                    try:
+                        dpa, dra = np.array(dp, dtype=dt), np.array(dr, dtype=dt)
+                        demo = compare(mk(it, _mkgroups_real(case["groupset"]), 0.5, 0.25).evaluate(dpa, dra, verbose=False), dpa, dra, 0.25)
+                        if demo:
+                            bad += "; e.g. prediction %s reference %s (matcher threshold 0.25): %s" % (dp, dr, demo)
+                    except Exception:
+                        pass
                     break
-            if bad:
-                break
     ok = mode != "witness" or expect is None or expect.get("raises") == (raised is not None)
     return {"match": ok, "why": None if ok else "twin raises=%s real raises=%s (%s)" % (expect.get("raises"), raised is not None, raised), "violates": bad is not None, "reason": bad, "observed": None}
 
